@@ -1,6 +1,6 @@
 (* C02 - LP share supply, pool total shares and committed shares always agree. Statements only. *)
 From Coq Require Import ZArith List Bool Arith.
-From Elys Require Import Base.Res Base.Fn Models.SumLedger Proofs.SumLedgerProofs Models.Shares Proofs.SharesProofs.
+From Elys Require Import Base.Res Base.Fn Models.SumLedger Proofs.SumLedgerProofs Models.Shares Proofs.SharesProofs Proofs.SharesFrame.
 Import ListNotations.
 Open Scope Z_scope.
 
@@ -27,7 +27,40 @@ Theorem C02_shares_only_by_join_exit : forall s o,
 Proof. exact supply_only_by_join_exit. Qed.
 Print Assumptions C02_shares_only_by_join_exit.
 
+(* Per account, exactly: a successful join / exit moves the committed shares of the ACTING account by exactly the signed
+   amount (an account not yet stored starts from nothing), moves supply, pool.TotalShares and the commitment module's
+   custody by the same amount, and leaves EVERY other account's committed shares as they were. *)
+Theorem C02_step_exact_and_frame : forall s o s', shstep s o = Ok s' ->
+  (In (sh_acct o) (keys (sh_sl s)) -> parts (sh_sl s') (sh_acct o) = parts (sh_sl s) (sh_acct o) + sh_delta o) /\
+  (~ In (sh_acct o) (keys (sh_sl s)) -> parts (sh_sl s') (sh_acct o) = sh_delta o) /\
+  (forall k, k <> sh_acct o -> parts (sh_sl s') k = parts (sh_sl s) k) /\
+  total (sh_sl s') = total (sh_sl s) + sh_delta o /\
+  sh_tshares s' = sh_tshares s + sh_delta o /\
+  sh_custody s' = sh_custody s + sh_delta o /\
+  In (sh_acct o) (keys (sh_sl s')).
+Proof. exact shstep_exact. Qed.
+Print Assumptions C02_step_exact_and_frame.
+
+(* Over EVERY history: an account that does not act keeps exactly its committed shares (nobody's exit, close or
+   liquidation can burn another holder's shares). *)
+Theorem C02_other_holders_untouched : forall h s k, (forall o, In o h -> sh_acct o <> k) ->
+  parts (sh_sl (shrun s h)) k = parts (sh_sl s) k.
+Proof. exact shrun_other_accounts. Qed.
+Print Assumptions C02_other_holders_untouched.
+
+(* An exit above what the account itself has committed is refused and changes nothing (no share is burnt that the
+   exiting account does not hold). *)
+Theorem C02_exit_beyond_committed_no_effect : forall s k a,
+  parts (sh_sl s) k < a -> (exists c, shstep s (ShExit k a) = Err c) /\ shexec s (ShExit k a) = s.
+Proof. intros s k a H. split; [exact (sh_exit_beyond_committed_refused s k a H) | exact (sh_exit_beyond_committed_no_effect s k a H)]. Qed.
+Print Assumptions C02_exit_beyond_committed_no_effect.
+
 Example C02_nonvacuous :
   let s := shrun sh_empty [ShJoin 0 1000; ShJoin 1 50; ShExit 0 300; ShExit 1 51; ShJoin 1 5] in
   sh_tshares s = 755 /\ total (sh_sl s) = 755 /\ parts (sh_sl s) 1%nat = 55 /\ sh_custody s = 755.
+Proof. vm_compute. repeat split. Qed.
+
+Example C02_frame_nonvacuous :
+  let s := shrun sh_empty [ShJoin 0 1000; ShJoin 1 50] in
+  shexec s (ShExit 1 51) = s /\ parts (sh_sl (shrun s [ShExit 0 300; ShJoin 0 7])) 1%nat = 50.
 Proof. vm_compute. repeat split. Qed.
